@@ -28,7 +28,7 @@ from .common import natlist
 PROP = "C01"
 SH = 60                      # cases per shard
 
-HDR = ("From Coq Require Import List ZArith Bool.\nImport ListNotations.\n"
+HDR = ("From Coq Require Import List ZArith Bool Uint63.\nImport ListNotations.\n"
        "Require Import C01.Sums C01.Batch C01.Tensor C01.OpExpr C01.Model C01.Covered C01.Check.\nOpen Scope Z_scope.\n")
 
 FFT_CLASSES = {"Toeplitz"}   # results come out of fft/ifft: integers only up to rounding error
@@ -46,18 +46,19 @@ def zl(v):
     return "(%d)" % v if v < 0 else "%d" % v
 
 
-def table_lit(x, r, c):
-    """x: torch tensor (..., r, c) integer valued -> [[[..]]] indexed [flat batch][row][col]"""
-    flat = x.reshape(-1, r, c).tolist() if x.numel() else [[[] for _ in range(r)] for _ in range(int(math.prod(x.shape[:-2])))]
-    return "[" + "; ".join("[" + "; ".join("[" + "; ".join(zl(round(v)) for v in row) + "]" for row in mat) + "]"
-                           for mat in flat) + "]"
+def flat_lit(x):
+    """integer valued torch tensor -> flat row-major data in chunks of primitive 63-bit integers (two's complement), see
+    coq/C01/Check.v untable: primitive integer literals elaborate ~3x faster than nested lists of Z numerals"""
+    ints = [int(round(v)) % (1 << 63) for v in x.reshape(-1).tolist()]
+    chunks = [ints[i:i + 400] for i in range(0, len(ints), 400)]
+    return "[" + "; ".join("[" + "; ".join(map(str, ch)) + "]" for ch in chunks) + "]%uint63"
 
 
 def bt_lit(x):
     """torch tensor (..., r, c) -> BT literal (batch shape innermost-first)"""
     bs = list(x.shape[:-2])[::-1]
     r, c = x.shape[-2:]
-    return "(of_table %s %d %d %s)" % (natlist(bs), r, c, table_lit(x, r, c))
+    return "(of_flat %s %d %d %s)" % (natlist(bs), r, c, flat_lit(x))
 
 
 def bt_mat(t):
@@ -417,10 +418,11 @@ def obs_lit(kind, obs, vec_rows):
         x = x.unsqueeze(-1)
     if x.dim() < 2:
         return "ObsErr"
-    x = x.round()
+    if not bool(torch.all(torch.isfinite(x))):
+        return "ObsErr"
     bs = list(x.shape[:-2])[::-1]
     r, c = x.shape[-2:]
-    return "(ObsT %s %d %d %s)" % (natlist(bs), r, c, table_lit(x, r, c))
+    return "(ObsF %s %d %d %s)" % (natlist(bs), r, c, flat_lit(x))
 
 
 def query_lit(kind, rhs):
